@@ -276,6 +276,7 @@ def main(argv):
     stages = {}
     gen_report = None
     build_ok = False
+    corr_ok = False
 
     with Lock("build.lock"):
         ok, out = build_harness(a.tags)
@@ -295,7 +296,14 @@ def main(argv):
         ok2, mout = make_targets(targets)
         stages["coq_make"] = "ok" if ok2 else "failed"
         build_ok = ok2
+        corr_ok = ok2
         if not ok2:
+            # a proof obligation broke: the correspondence evaluator may still build on its own, and
+            # its verdict on the recorded cases helps the search for a concrete failing input
+            ctargets = [t for t in targets if t.startswith("Corr/")]
+            if ctargets:
+                corr_ok, _ = make_targets(ctargets)
+                stages["coq_make_corr_only"] = "ok" if corr_ok else "failed"
             err = parse_coq_error(mout)
             thm = None
             if err["file"]:
@@ -333,7 +341,7 @@ def main(argv):
 
     # --- model side ---
     mism = []
-    if result is not None and build_ok and result.get("coq_cases", 0) > 0:
+    if result is not None and corr_ok and result.get("coq_cases", 0) > 0:
         ok3, mism, cout = coq_eval_cases(workdir, meta.get("timeouts", {}).get("coq_" + a.tier, 3000))
         stages["coq_cases"] = "ok" if ok3 else "failed"
         if not ok3:
